@@ -29,15 +29,18 @@ template <class F>
 struct FloatScalar {
   static F make(i64 n, i64 d) { return static_cast<F>(n) / static_cast<F>(d); }
   static R exact(F v) {
-    if constexpr (std::is_same_v<F, long double>) {
-      double hi = (double)v;
-      long double rest = v - (long double)hi;
-      double lo = (double)rest;
-      long double rest2 = rest - (long double)lo;
-      return R(hi) + R(lo) + R((double)rest2);
-    } else {
-      return R((double)v);
-    }
+    if (v == 0) return R(0);
+    if (!(v == v) || v - v != 0) throw std::logic_error("exact(): NaN or infinity");
+    int e = 0;
+    long double m = frexpl((long double)v, &e);  // v = m * 2^e, |m| in [0.5,1)
+    bool neg = m < 0;
+    if (neg) m = -m;
+    m = ldexpl(m, 64);  // integer below 2^64, exact (64-bit significand at most)
+    unsigned long u = (unsigned long)m;
+    R r{mpz_class(u)};
+    if (e - 64 >= 0) r <<= (unsigned long)(e - 64);
+    else r >>= (unsigned long)(64 - e);
+    return neg ? R(-r) : r;
   }
 };
 template <>
